@@ -281,7 +281,7 @@ def write_evidence(mod: Any, ctx: Ctx, proof: dict[str, Any], rc: int) -> None:
         "property_id": ctx.prop,
         "tier": ctx.tier,
         "seed": ctx.seed,
-        "level": getattr(mod, "LEVEL", "proof"),
+        "level": "proof",   # the technique level of this effort (schema enum); strength is in the module's STRENGTH/LEVEL_TEXT
         "coverage": cov,
         "assumptions": list(getattr(mod, "ASSUMPTIONS", [])),
         "wall_s": round(time.time() - ctx.t0, 2),
